@@ -256,6 +256,9 @@ class ContractMixin:
                     return k(mk_bool(False), s)
                 return k(mk_bool(z3.Or(*[v.t == o for (o, _oc) in s.new_objs]) if s.new_objs else z3.BoolVal(False)), s)
             return self.ev(e.args[0], st, is_mine)
+        if name == "allocated":
+            # the object exists in the current state (it was created before now)
+            return self.ev(e.args[0], st, lambda v, s: k(mk_bool(z3.And(v.t != NULL, birth(v.t) <= s.clock)), s))
         if name == "typeof":
             return self.ev(e.args[0], st, lambda v, s: k(self.type_of(v), s))
         if name == "zero_map":
@@ -769,8 +772,8 @@ class ContractMixin:
                     self.assume_kernel_facts(s)
             else:
                 mods = self.parse_modifies(c, st, fr)
-                if mods and not c.pure and self.ABSTRACT_TRUTH in s.heap:
-                    s.heap[self.ABSTRACT_TRUTH] = fresh("Hm!truth", s.heap[self.ABSTRACT_TRUTH].sort())
+                # (the abstract truth values are refreshed by the heap writes below: completely for whole-field
+                #  effects, for the objects not older than the target for `Class.field@obj` effects)
                 if mods and not c.pure and self.may_allocate(c, info):
                     nb = fresh("clock", z3.IntSort())
                     s.assume(nb >= s.clock)
@@ -858,6 +861,7 @@ class ContractMixin:
                         e = fresh("sig", RefS)
                         s.assume(e != NULL)
                         s.assume(subclass(cls_of(e), cls_const("Interrupt")))
+                        s.assume(self.kernel_signal_class(e))
                         exc = Val(REF("Interrupt"), e)
                         sfr.locals["sig"] = exc
                         s.assume(self.eval_clause("sig.scheduled and not sig._revoked and sig.target is me and loop.activity is me and loop.time == sig.due",
